@@ -271,13 +271,14 @@ def ref_history(ops):
 
 class C08:
     prop = "C08"
-    lean_module = "Ogorek.Props.C07T"
+    lean_module = "Ogorek.Props.C08S"
     theorems = ["Ogorek.tableDelete_spec", "Ogorek.C08_del", "Ogorek.C08_set", "Ogorek.C08_set_del", "Ogorek.C08_del_none",
                 "Ogorek.C08_inv_step", "Ogorek.C08_inv", "Ogorek.C08_len_iter", "Ogorek.C08_get_any", "Ogorek.C08_match_unique",
                 "Ogorek.C08_get_after_set", "Ogorek.C08_K2_witness", "Ogorek.C08_get_after_del", "Ogorek.C08_frame_del",
                 "Ogorek.C08_frame_set", "Ogorek.C08_get_frame", "Ogorek.C08_len_del", "Ogorek.C08_len_set", "Ogorek.C08_len_set_inv",
                 "Ogorek.C08_len_bound", "Ogorek.C08_entries_from_sets", "Ogorek.C08_get_set_same", "Ogorek.C08_get_set_hashable",
-                "Ogorek.C08_get_from_sets", "Ogorek.C08_match_unique_noBS", "Ogorek.C08_get_after_set_noBS"]
+                "Ogorek.C08_get_from_sets", "Ogorek.C08_match_unique_noBS", "Ogorek.C08_get_after_set_noBS",
+                "Ogorek.TGood.step", "Ogorek.TGood.run", "Ogorek.C08_step_spec", "Ogorek.C08_refines", "Ogorek.C08_refines_foldl"]
     trusted_base = TB_COMMON + ["gomap.Map refines the abstract table (Delete/Get act on SOME entry equal to the key; which one is "
                                 "universally quantified) — justified by C07_hash + C07_symm, not by a proof about gomap's buckets"]
     level_text = ("Lean theorems for EVERY history and EVERY way the table resolves its choices (`pick`): Del's loop removes exactly the "
@@ -291,7 +292,9 @@ class C08:
                   "candidates of every unrelated query untouched, so its Get is unchanged (C08_frame_set, C08_frame_del, C08_get_frame); Len "
                   "moves by exactly the number of entries equal to the key (C08_len_del, C08_len_set, C08_len_set_inv); after any history Len is at most the number of Sets and every stored entry is "
                   "the key and value of some Set of the history (C08_len_bound, C08_entries_from_sets, by induction over the history), so whatever Get q returns was set by a Set of the "
-                  "history under a key equal to q (C08_get_from_sets). The full 'most recently set' statement is FALSE for a ByteString query with "
+                  "history under a key equal to q (C08_get_from_sets). REFINEMENT: after any history whose keys hold no ByteString, Get q is what the abstract map read off the history says "
+                  "(specGet: the latest Set under a key equal to q unless a later Del of such a key) — C08_refines / C08_refines_foldl, for every "
+                  "pick at every step. The full 'most recently set' statement is FALSE for a ByteString query with "
                   "both a string and a Bytes stored (C08_K2_witness) — known finding K2. Tie: histories replayed on the real Dict "
                   "(Len, Iter contents, Get) against the model and against a Python-equality reference after every operation.")
     level_note = "trusted: Lean kernel + standard axioms; abstract-table model of gomap; Dict model"
